@@ -108,7 +108,7 @@ def check_image(ctx, data):
     addr = hy.mbr['boot_lba_512']
     if b0 is not None:
         want = blob_data(b0)
-        if addr % 4 or data[addr * 512:addr * 512 + 8] != want[:8]:
+        if addr % 4 or data[addr * 512:addr * 512 + min(8, len(want))] != want[:8]:
             nx86 = 1 + sum(1 for e in m.eltorito['entries'][1:] if not e.get('efi'))
             ctx.violate(('mbr/boot-file-address', 'validation-platform=%d' % (m.eltorito.get('platform') or 0),
                          'entries-with-validation-platform=%s' % ('1' if nx86 == 1 else '>1'), 'udf=%s' % bool(m.has('udf'))), 'offset 432 holds %d (512-byte sectors); the boot file does not start there' % addr, fatal=False)
